@@ -33,20 +33,6 @@ Theorem C13_resolved_only_when_done : forall (sc : scen) (h : list ev),
   /\ (m_fin (mm s) <> None -> m_state (mm s) = SFull).
 Proof. intros sc h Hwf. exact (resolved_only_when_done sc Hwf h). Qed.
 
-(* REFUTED (finding C13-F1): "every crashy run reaches the terminal state".
-   A stop between a resolver's final Checkpoint(resolved) and
-   log.ResolveContract: no continuation whatsoever (more restarts included)
-   ever marks the channel resolved, although the uninterrupted run does. *)
-Theorem C13_progress_refuted : exists (sc : scen) (h : list ev),
-  wf_scen sc = true /\ sc_cs_acts sc = false
-  /\ terminal (run sc (rr sc 30)) = true
-  /\ forall h', terminal (run sc (h ++ h')) = false.
-Proof.
-  exists sc_commit, h_f1.
-  split; [reflexivity|]. split; [reflexivity|]. split; [vm_compute; reflexivity|].
-  intros h'. destruct (stuck_f1_forever h') as (_ & Hf & _). exact Hf.
-Qed.
-
 (* REFUTED (finding C13-F2): "the terminal outcome equals the uninterrupted
    one" for scenarios with a dust fail-back set AND a persisted commit set
    that yields chain actions on a chain trigger (dangling htlc). *)
